@@ -8,7 +8,7 @@ ROOT = Path(__file__).resolve().parent.parent
 CHECKS = {
     'C01': dict(
         technique='runtime monitors: longdouble shadow model over random operation sequences + conservation checker '
-                  'over recorded SpectralInformation operations and element crossings + receiver identity',
+                  'over recorded SpectralInformation operations and element crossings + receiver identity + the repository own test suite run as one more workload with the input-independent monitors on (pytest plugin)',
         text='Real SpectralInformation objects and real propagations are observed operation by operation; every '
              'observed state satisfies the split identity, every operation its conservation law. Exploration only: '
              'held on the executions observed (classes listed in the evidence).',
@@ -18,7 +18,7 @@ CHECKS = {
 
 CHECKS['C02'] = dict(
     technique='runtime monitor: per-element, per-channel monotonicity checker over recorded crossings; bit-identity '
-              'of the shares across passive elements and attenuation operations; differential con_out run',
+              'of the shares across passive elements and attenuation operations; differential con_out run + the repository own test suite run as one more workload with the input-independent monitors on (pytest plugin)',
     text='Every element crossing of every propagated path is compared before/after per channel; passive elements '
          'and every loss operation must leave the three shares bit-identical. Exploration: held on the crossings '
          'observed.',
@@ -27,7 +27,8 @@ CHECKS['C02'] = dict(
 
 CHECKS['C03'] = dict(
     technique='runtime monitor: recorded NliSolver.compute_nli calls vs independent closed-form reference model; '
-              'metamorphic laws (cube law, monotonicity, order independence) on the real solver',
+              'metamorphic laws (cube law, monotonicity, order independence) on the real solver; history: the same fibre '
+              'object crossed again after its length was changed',
     text='Each NLI evaluation made while a real Fiber is crossed is compared per channel with an independent scalar '
          'implementation of eq. 120/123 fed from the user-level fibre parameters; scaling laws are checked on the '
          'real solver. Exploration over generated fibres and combs.',
@@ -57,7 +58,7 @@ CHECKS['C05'] = dict(
 
 CHECKS['C06'] = dict(
     technique='runtime monitor: recorded Roadm crossings (propagated and directly driven) vs independent equaliser '
-              'reading the configured documents; policy-uniqueness loads',
+              'reading the configured documents; policy-uniqueness loads; same-object re-crossing histories + the repository own test suite run as one more workload with the input-independent monitors on (pytest plugin)',
     text='Every ROADM crossing observed is compared per channel with min(target+offset, input-path loss) where the '
          'target is resolved independently from the egress degree / node / library configuration; P_out<=P_in is '
          'asserted on every crossing; 0..3 policies at library and topology level are loaded. Exploration.',
@@ -68,7 +69,7 @@ CHECKS['C06'] = dict(
 CHECKS['C07'] = dict(
     technique='runtime monitor: exactly-once / no-loss checker over channel identity tuples recorded at launch, '
               'after the band filter and after every element (depth-aware for multiband amplifiers); differential '
-              'runs with shuffled supply order; invalid-spectrum rejection',
+              'runs with shuffled supply order; invalid-spectrum rejection + the repository own test suite run as one more workload with the input-independent monitors on (pytest plugin)',
     text='The survivor set is computed independently from the amplifier bands of the route and compared with what '
          'the filter keeps; the identity list must then be identical at every element and at the receiver. '
          'Exploration over edge/gap/single-channel spectra on single-band, narrow-band and C+L networks.',
@@ -94,14 +95,16 @@ CHECKS['C09'] = dict(
          'the rule; one listed known finding (step coarsening).', ref='3/C09')
 CHECKS['C10'] = dict(
     technique='runtime monitor: recorded set_one_amplifier / select_edfa calls judged by an independent oracle '
-              '(permitted set from the documents, data-sheet capability, reference NF model)',
+              '(permitted set from the documents, data-sheet capability, reference NF model); history: library edited in '
+              'place between two designs',
     text='Every amplifier selection made by auto-design on synthetic overlapping libraries with restrictions at '
          'three levels is recorded and re-judged: membership, Raman rule, capability, NF optimality. Exploration.',
     note='Margins within 1e-9 dB of zero and NF ties not judged; NF optimality for gain-only NF models; multiband '
          'auto-selection is a listed known finding.', ref='3/C10')
 CHECKS['C11'] = dict(
     technique='runtime monitor: returned routes of the real path computation judged by an independent exhaustive '
-              'ROADM-level search (validity, include order, optimal fibre length, STRICT/LOOSE semantics, reverse path)',
+              'ROADM-level search (validity, include order, optimal fibre length, STRICT/LOOSE semantics, reverse path); '
+              'routes of requests inside synchronisation groups judged for the route clauses (real, loop-free, STRICT)',
     text='Each request of generated batches on generated meshes is compared with the optimum over all simple '
          'constraint-satisfying routes enumerated independently. Exploration.',
     note='Whole-kilometre fibre lengths (exact ties); undefined LOOSE/STRICT mixes not judged; one listed known '
@@ -124,32 +127,36 @@ CHECKS['C13'] = dict(
     note='Ties not generated; the fresh fixed-mode evaluation is the reference; one listed known finding (same baud '
          'rate, different power offsets).', ref='3/C13')
 CHECKS['C14'] = dict(
-    technique='runtime monitor: the real assignment routine stepped request by request, every step replayed against '
-              'an executable allocator model (history + model checker over recorded bitmaps)',
-    text='After each request the outcome and every OMS map are compared with a set-based model: disjointness both '
+    technique='runtime monitor: histories of the real assignment routine - stepped request by request (every OMS map '
+              'recorded after each step) or called once with the whole batch as planning() does (outcomes and final maps '
+              'recorded) - replayed against an executable allocator model (history + model checker)',
+    text='The outcome of each request and the OMS maps are compared with a set-based model: disjointness both '
          'directions, guard bands, usable slots, enough slots, first fit by brute force, fixed values honoured, '
          'blocked => unchanged, occupancy = union. Exploration over synthetic histories and planning() batches.',
     note='First-fit optimality judged for fully free requests; usable slots / guard limits taken from the initial maps.',
     ref='3/C14')
 CHECKS['C15'] = dict(
     technique='runtime monitors: icontract class invariant on the real Bitmap; structural checker on build_oms_list '
-              'output; alignment checker on random map sets',
+              'output with an exact usable-band oracle (slot usable iff its central frequency lies in a common band; '
+              'on-grid and off-grid band edges); alignment checker on random / equal-width / nested map sets + the repository own test suite run as one more workload with the input-independent monitors on (pytest plugin)',
     text='OMS partition, end points, reverse pairing, common slot range and usable-band marking are checked on '
          'networks whose OMS differ in bands; grid alignment on maps of different extents. Exploration.',
-    note='Slots within one grid step of a band edge not judged; amplifier bands from the loaded library.', ref='3/C15')
+    note='Amplifier bands from the loaded library; amplifiers of one line share some band; 1 kHz float slack on band edges.', ref='3/C15')
 CHECKS['C16'] = dict(
     technique='runtime monitor: history checker over repeated planning() runs on one network object (alone / first / '
-              'last / random orders) + canonical network digest + count of propagations touching network objects',
+              'last / random orders, near-duplicate twin requests) + canonical network digest (incl. per-band amplifiers '
+              'of multiband elements) + count of propagations touching network objects',
     text='Every request result (route, mode, metrics, verdict) must be identical in every batch composition and the '
          'network digest unchanged after every run. Exploration over batches with saturating and blocked requests.',
     note='No synchronisation vectors, no aggregatable duplicates; spectrum labels and spectrum blocking excluded.',
     ref='3/C16')
 CHECKS['C17'] = dict(
     technique='runtime monitor: idempotence checker over recorded exports (fresh design twice, export/reload/redesign '
-              'rounds) + SimParams before/after every design + propagated GSNR comparison',
+              'rounds) + SimParams before/after every design + comparison of every propagated figure (GSNR, OSNR, power, '
+              'CD, PMD, PDL, latency) between a design and its reloaded form',
     text='Generated inputs are designed, exported, read back as load_network does and redesigned for 1..3 rounds under '
          'random simulation parameters. Exploration; two listed known findings (EOL re-added; Raman upstream amp).',
-    note='Numbers to the export rounding, structure exact, GSNR 1e-4 dB.', ref='3/C17')
+    note='Numbers to the export rounding, structure exact, dB figures 1e-4 dB, CD/PMD/PDL/latency 1e-6 relative.', ref='3/C17')
 CHECKS['C18'] = dict(
     technique='runtime monitors: idempotence checker over recorded conversions, leaf-by-leaf comparison against the '
               'declared fraction digits, loader-equivalence differential, alias checker; libyang validation as gate',
@@ -159,10 +166,11 @@ CHECKS['C18'] = dict(
 CHECKS['C19'] = dict(
     technique='runtime monitor: response document and CSV of real planning() runs compared with an independent '
               'response builder reading the propagated paths, both receivers and the request objects; aggregation '
-              'recomputed from the input; CSV pass flag differential with a moved threshold',
+              'recomputed from the input; CSV pass flag differential with a moved threshold; event log of every '
+              'propagation (figures copied when it ends) compared with what is reported',
     text='Every response entry and CSV row of generated batches (served, every blocking reason, bidirectional, '
          'aggregated, multi-slot) is rebuilt independently and compared exactly. Exploration.',
-    note='Order of ids inside a joined id not judged.', ref='3/C19')
+    note='Order of ids inside a joined id not judged; two-decimal values compared with a tie-tolerant equality (at most two decimals, within half a unit of the last place).', ref='3/C19')
 CHECKS['C20'] = dict(
     technique='runtime monitor: generated workbooks converted by the real converter and compared with an independent '
               'workbook model (elements, per-direction values, wiring, requests); one-rule-violated workbooks must '
